@@ -813,6 +813,10 @@ class _Canon(ast.NodeTransformer):
                 parts.append(self.visit_Compare(ast.Compare(left=copy.deepcopy(left), ops=[op], comparators=[right])))
                 left = right
             return self.visit_BoolOp(ast.BoolOp(op=ast.And(), values=parts))
+        # None is None / None is not None (a local known to hold None on this path): a constant
+        if len(node.ops) == 1 and isinstance(node.ops[0], (ast.Is, ast.IsNot)) and all(isinstance(x, ast.Constant) and x.value is None for x in (node.left, node.comparators[0])):
+            return ast.Constant(value=isinstance(node.ops[0], ast.Is))
+
         def _lit(x):
             return isinstance(x, ast.Constant) or (isinstance(x, ast.UnaryOp) and isinstance(x.op, ast.USub) and isinstance(x.operand, ast.Constant))
         if len(node.ops) == 1 and _lit(node.left) and not _lit(node.comparators[0]):
